@@ -4,13 +4,17 @@
 From V.model Require Import Base Deb822Lex Deb822Parse Grammar Lossy LossySpec Deb822Edit LiveDoc Deb822Wrap WrapSpec.
 From V.model Require RelGrammar RelWrap RelWrapSpec.
 
-(* value.parse_relaxed(true) with no error tolerated, wrap_and_sort(), to_string(): RelWrap.ctl_rel *)
-Definition real_rel : str -> res str := RelWrap.ctl_rel RelWrap.fixed.
+(* the relationship arm of format_field: Relations::parse_relaxed(value, true); with errors the
+   value as it is (C07-22), else wrap_and_sort(), to_string(): RelWrap.ctl_rel, whose Panic 20 is
+   "the parser reported errors" *)
+Definition real_rel : str -> res str := rel_arm fixed (RelWrap.ctl_rel RelWrap.fixed).
 (* format_field of debian-control/src/lossless/control.rs, no parameter left *)
 Definition real_format_field : str -> str -> res str := format_field fixed real_rel.
 (* Control::wrap_and_sort, Source::wrap_and_sort / Binary::wrap_and_sort *)
-Definition real_control_ws (c : wcfg) (t : tree) : res tree := control_ws fixed real_rel (c_ind c) (c_iel c) (c_mll c) t.
-Definition real_control_para_ws (c : wcfg) (p : tree) : res tree := control_para_ws fixed real_rel (c_ind c) (c_iel c) (c_mll c) p.
+Definition real_control_ws (c : wcfg) (t : tree) : res tree :=
+  control_ws fixed (RelWrap.ctl_rel RelWrap.fixed) (c_ind c) (c_iel c) (c_mll c) t.
+Definition real_control_para_ws (c : wcfg) (p : tree) : res tree :=
+  control_para_ws fixed (RelWrap.ctl_rel RelWrap.fixed) (c_ind c) (c_iel c) (c_mll c) p.
 
 (* the formatter as a function (the empty text where format_field panics: never used on the
    control files below) *)
@@ -25,9 +29,12 @@ Definition field_input (f : field) : str := value_text (field_ws0 f) (f_first f)
    in its whitespace slots -- the continuation-line breaks are among them --, substitution
    variables, empty entries, trailing comma ...) in C13's safe domain (no digit run above 2^31-1
    in a version); the Uploaders formatter's output is shaped on every Uploaders field (no empty
-   piece between commas).  Every other field is arbitrary. *)
+   piece between commas; a piece may start with '#': C07-21).  Every other field is arbitrary.
+   (A relationship field the relations parser rejects is returned as it is -- C07-22,
+   C07_control_unparsable_relation_kept --; it is not in this domain: that the parser rejects the
+   re-laid-out value too is not a theorem of C13.) *)
 Definition ctl_field_ok (f : field) : Prop :=
-  if str_eqb (f_name f) Lit.k_Uploaders then shaped (fmt_uploaders (field_input f)) = true
+  if str_eqb (f_name f) Lit.k_Uploaders then shaped (fmt_uploaders_h (field_input f)) = true
   else if existsb (str_eqb (f_name f)) (Lit.relation_fields true) then
     exists rf, RelGrammar.wf_rfield true rf = true /\ RelWrapSpec.field_safe rf = true /\
                field_input f = RelGrammar.rrender rf
